@@ -92,6 +92,17 @@ DamagePerStripe(c, f, pr, p) ==
 WithinBounds(c, f, pr) == \A p \in 0..(AllocatedMax(c) - 1) :
                              (\E d \in D : HasFile(BlockAtSlow(c, d, p))) => DamagePerStripe(c, f, pr, p) <= NP
 
+(* a recorded file whose bytes and size are the recorded ones while its time stamp is not: for snapraid that is a file the
+   user has touched, not damage (fix leaves it alone and the next sync takes it as changed); histories in which this
+   happens (a time-stamp only change, or the leftover of a fix -b that did not reach the last block of a file:
+   observation O2) are outside the hypothesis of C01 *)
+StampOnlyChange(c, f) ==
+    \E x \in AllFiles(c) : /\ x[2] \in DOMAIN f[x[1]]
+                            /\ f[x[1]][x[2]].mt # c.cf[x[1]][x[2]].mt
+                            /\ f[x[1]][x[2]].sz = c.cf[x[1]][x[2]].sz
+                            /\ Len(f[x[1]][x[2]].b) = Len(c.cf[x[1]][x[2]].bl)
+                            /\ \A i \in 1..Len(c.cf[x[1]][x[2]].bl) : f[x[1]][x[2]].b[i] = c.cf[x[1]][x[2]].bl[i].h
+
 (* the version of block i of a recorded file that fix must reproduce: the one whose hash is recorded, or for a
    block without a hash the content the file had when the record was made (ghost) *)
 WantBlock(c, g, d, n, i) == LET b == c.cf[d][n].bl[i]
@@ -118,13 +129,14 @@ C05_Sig(c, g, d, n, i, got) ==
     IN IF b.st = "CHG" /\ IsUnique(b.h) /\ b.h = WantBlock(c, g, d, n, i) THEN "F1-chg-pasthash-is-new-hash"
        ELSE IF b.st = "CHG" /\ IsUnique(b.h) /\ LenOf(b.h) # BlkLen(c.cf[d][n].sz, i) THEN "F2-chg-pasthash-other-length"
        ELSE "other"
-C05_Fix(c, g, f0, s, o, selected) ==
+C05_Fix(c, g, f0, s, o, selected, allstripes) ==
     LET unrec == PairSet(o.unrec)
         wrong == {y \in AllFiles(c) \X (1..64) :
                     LET d == y[1][1]
                         n == y[1][2]
                         i == y[2]
                     IN /\ i <= Len(c.cf[d][n].bl)
+                       /\ allstripes          \* -e / -b look only at the stripes marked bad, by design
                        /\ n \in selected[d]
                        /\ <<d, n>> \notin unrec
                        /\ n \in DOMAIN s.fs[d]
@@ -192,6 +204,11 @@ LinksOf(s) == IF "lk" \in DOMAIN s THEN [lk |-> s.lk, dr |-> s.dr, clk |-> s.clk
               ELSE [lk |-> [d \in D |-> <<>>], dr |-> [d \in D |-> <<>>], clk |-> [d \in D |-> <<>>], cdr |-> [d \in D |-> <<>>]]
 LinksSynced(k) == \A d \in D : k.lk[d] = k.clk[d]
 (* recorded links / empty directories that are missing or different on the disks (check and fix report and repair them) *)
+(* check, fix and scrub open files by path: a name that the scan would class as a hard link of another name (same inode,
+   later in scan order) still is a file with that content *)
+PathFs(f, k) ==
+    [d \in D |-> LET hn == {n \in DOMAIN k.lk[d] : k.lk[d][n][1] = "hard" /\ k.lk[d][n][2] \in DOMAIN f[d]}
+                 IN Eager([n \in DOMAIN f[d] \cup hn |-> IF n \in DOMAIN f[d] THEN f[d][n] ELSE f[d][k.lk[d][n][2]]])]
 LinkErrors(k) == \E d \in D : (\E n \in DOMAIN k.clk[d] : n \notin DOMAIN k.lk[d] \/ k.lk[d][n] # k.clk[d][n])
                               \/ (\E i \in 1..Len(k.cdr[d]) : k.cdr[d][i] \notin ToSet(k.dr[d]))
 LinkCounts(k) == [d \in D |-> [eq |-> Cardinality({n \in DOMAIN k.clk[d] : n \in DOMAIN k.lk[d] /\ k.lk[d][n] = k.clk[d][n]}),
@@ -346,10 +363,16 @@ SyncKilledStep ==
 SelOf(a) == [d \in D |-> ToSet(a.sel[d])]
 ExtOf(a) == IF "ext" \in DOMAIN a THEN [stamp |-> ToSet(a.ext.stamp), blocks |-> ToSet(a.ext.blocks)] ELSE NoExt
 
+FltOf(a) == IF "flt" \in DOMAIN a
+            THEN FilterOf(C, [disks |-> ToSet(a.flt.disks), plevels |-> ToSet(a.flt.plevels), usenames |-> a.flt.usenames,
+                              names |-> [d \in D |-> ToSet(a.flt.names[d])], missing |-> a.flt.missing,
+                              exists |-> [d \in D |-> ToSet(a.flt.exists[d])], bad |-> a.flt.bad])
+            ELSE FilterOfSel(C, SelOf(a))
+
 CheckStep ==
     /\ IsEvent("Check")
     /\ LET a == Ev.args
-           r == CheckResultX(C, fs, par, PresentOf(a), a.audit, a.range, ExtOf(a))
+           r == CheckResultX(C, PathFs(fs, lks), par, PresentOf(a), a.audit, a.range, ExtOf(a))
            lerr == LinkErrors(lks)
            xexit == IF r.exit = "ok" /\ lerr THEN (IF a.audit THEN "error" ELSE "recoverable") ELSE r.exit
            okO == (xexit = Ev.out.exit \/ (lerr /\ Ev.out.exit = "unrecoverable"))
@@ -369,15 +392,17 @@ CheckStep ==
 FixStep ==
     /\ IsEvent("Fix")
     /\ LET a == Ev.args
-           r == FixRangeX(C, fs, par, PresentOf(a), SelOf(a), a.range, ExtOf(a))
-           whole == a.range.bstart = 0 /\ a.range.bcount = 0
+           flt == FltOf(a)
+           selected == [d \in D |-> DOMAIN C.cf[d] \ flt.ex[d]]
+           r == FixRangeF(C, fs, par, PresentOf(a), flt, a.range, ExtOf(a))
+           whole == a.range.bstart = 0 /\ a.range.bcount = 0 /\ "flt" \notin DOMAIN a
            okF == SameFs(r.fs, Ev.state.fs)
            okP == ParAgrees(r.par, Ev.state)
            okC == LoggedC(Ev.state) = C
            okO == /\ (r.out.exit = Ev.out.exit \/ (LinkErrors(lks) /\ r.out.exit \in {"ok", "recovered"} /\ Ev.out.exit \in {"recovered", "unrecoverable"}))
                   /\ r.out.unrec = PairSet(Ev.out.unrec)
                   /\ r.out.recovered = PairSet(Ev.out.recovered)
-           c01 == clean /\ WithinBounds(C, fs, par)
+           c01 == clean /\ WithinBounds(C, fs, par) /\ ~StampOnlyChange(C, fs)
        IN /\ Follow(Ev.state, r.par)
           \* observation O1: fix stops with "file ... disappeared" when a file it has just renamed to .unrecoverable
           \* (or removed) is still a candidate of the search by size and time stamp (search.c:83); such a run is only
@@ -390,7 +415,7 @@ FixStep ==
                      ELSE <<"Fix", l, [okF |-> okF, okP |-> okP, okC |-> okC, okO |-> okO],
                             IF ~okF THEN r.fs ELSE <<>>, IF ~okP THEN r.par ELSE <<>>, r.out, Ev.out>>
           /\ pviol' = C12_Frame("Fix", Ev.state) \o
-                      (IF whole /\ ~(Ev.out.exit = "none" /\ Ev.out.rc # 0) THEN C05_Fix(C, ghost, fs, Ev.state, Ev.out, SelOf(a)) ELSE <<>>) \o
+                      (IF a.range.bstart = 0 /\ a.range.bcount = 0 /\ ~(Ev.out.exit = "none" /\ Ev.out.rc # 0) THEN C05_Fix(C, ghost, fs, Ev.state, Ev.out, selected, flt.bad = "no") ELSE <<>>) \o
                       (IF c01 /\ whole THEN C01_Fix(C, fs, par, Ev.state, Ev.out) ELSE <<>>)
           /\ afterfix' = (c01 /\ whole)
           /\ UNCHANGED <<clean, snap, dmg, ghost>>
@@ -448,7 +473,7 @@ FixKilledStep ==
 ScrubStep ==
     /\ IsEvent("Scrub")
     /\ LET a == Ev.args
-           r == ScrubResult(C, fs, par, PlanSel(C, a.plan), a.now, PresentOf(a))
+           r == ScrubResult(C, PathFs(fs, lks), par, PlanSel(C, a.plan), a.now, PresentOf(a))
            okC == r.C = LoggedC(Ev.state)
            okS == Ev.state.fs = fs /\ ParAgrees(par, Ev.state)
            okO == r.out.exit = Ev.out.exit /\ r.out.derr = PairSet(Ev.out.derr) /\ r.out.perr = PairSet(Ev.out.perr)
@@ -494,6 +519,20 @@ TouchStep ==
           /\ clean' = FALSE
           /\ UNCHANGED <<snap, dmg, ghost, afterfix>>
 
+(* rehash: refused while a migration is in progress or when the array already uses the best hash function of the platform
+   (a.best, observed); otherwise every used position is marked and nothing else changes *)
+RehashStep ==
+    /\ IsEvent("Rehash")
+    /\ LET a == Ev.args
+           refused == RehashInProgress(C) \/ a.best
+           want == IF refused THEN C ELSE RehashMarked(C)
+           ok == LoggedC(Ev.state) = want /\ Ev.state.fs = fs /\ ParAgrees(par, Ev.state) /\ (Ev.out.rc = 0) = ~refused
+       IN /\ Follow(Ev.state, par)
+          /\ diag' = IF ok THEN <<>> ELSE <<"Rehash", l, [refused |-> refused, rc |-> Ev.out.rc], want.info>>
+          /\ pviol' = C12_Frame("Scrub", Ev.state) \o
+                      (IF refused /\ Ev.state.sha.c # sha.c THEN <<<<"C12", "refused-rehash-changed-content", <<>>>>>> ELSE <<>>)
+          /\ UNCHANGED <<clean, snap, dmg, ghost, afterfix>>
+
 ListStep ==
     /\ IsEvent("List")
     /\ Follow(Ev.state, par)
@@ -518,7 +557,7 @@ ResetStep ==
     /\ pviol' = <<>>
     /\ afterfix' = FALSE
 
-Next == EnvStep \/ RefusedStep \/ TouchStep \/ ListStep \/ SyncStep \/ SyncKilledStep \/ FixKilledStep \/ FaultStep \/ CheckStep \/ FixStep \/ ScrubStep \/ DiffStep \/ ResetStep
+Next == EnvStep \/ RefusedStep \/ RehashStep \/ TouchStep \/ ListStep \/ SyncStep \/ SyncKilledStep \/ FixKilledStep \/ FaultStep \/ CheckStep \/ FixStep \/ ScrubStep \/ DiffStep \/ ResetStep
 Spec == Init /\ [][Next]_vars
 
 (* ---- what TLC checks ---- *)
